@@ -76,3 +76,45 @@ check('C09', 'exploration',
       'DESIGN.md §3 C09')
 for k in CHECKS:
     NOT_YET.pop(k, None)
+
+check('C03', 'exploration',
+      'complete enumeration of a scenario product (prototype sets x perturbation x sizes x gains x blur x iterations)',
+      'Full product of 7 mixture models x K{2,3,4} x D{K,K+1(,8)} x three prototype sets (canonical, rotated, pairwise '
+      '|cos|=0.3) x perturbation {0,1e-3,1e-2} x equal/unequal class sizes x gain kinds (none, phasors, magnitudes '
+      '1e+-12, alternating 1e-100/1e100) x one-hot / 0.6-0.4 blurred true partition x iterations {1,2,5,20} x tying: '
+      'every observation must have its true class as MAP class; class parameters must be associated with their '
+      'prototype and within 10*perturbation+1e-6 of it (one-hot starts always, blurred starts after 20 iterations).',
+      'Tight-angle and association clauses are restricted for blurred starts as stated in DESIGN.md (the blurred '
+      'mixture of prototypes after one M-step is not "at the prototype" by construction); one known finding '
+      '(GMM, K=2, heavy blur, tiny classes) is listed in KNOWN_FINDINGS.txt.',
+      'DESIGN.md §3 C03')
+check('C04', 'exploration',
+      'metamorphic relation checked on a completely enumerated gain alphabet',
+      'All assignments of 7 gains (unit phasors, 1e-100, 1e100, 1e-3 e^{i theta}) to N=4 frames (up to frame order in '
+      'the quick tier) and gain pairs at several positions for N=12 under every configuration with <=1 non-default '
+      'option x iterations {1,3,10}: fit(c*y) == fit(y) field-wise in canonical form, predict and log-likelihood '
+      'equal, for cACGMM/cWMM/cBMM, the spatial streams of the integration models, vMFMM and the embedding stream '
+      '(positive gains); the single-distribution trainers and log_pdf under the same gain fields.',
+      'Raw ComplexWatson/ComplexBingham.log_pdf document unit-norm input: only unit-modulus gains are applied there.',
+      'DESIGN.md §3 C04')
+check('C05', 'exploration',
+      'metamorphic relation over all K! relabellings x deviation-bounded configuration space',
+      'All K! permutations of the class axis of the start (and of the source-activity mask) for K<=3 (K=4: all in the '
+      'thorough tier, a generating subset in quick) x every configuration with <=1 (quick) / 2 (thorough) non-default '
+      'options x iterations {1,2,5,20} x soft and one-hot starts, plus the full product model x tying x saliency x '
+      'mask: every fitted field and the posterior must be permuted along its own class axis.',
+      'Single precision only for <=2 iterations (rounding is amplified by long EM runs); a fit that raises is judged '
+      'by C01/C09, not here.',
+      'DESIGN.md §3 C05')
+check('C06', 'exploration',
+      'differential check stacked vs. per-slice over all small leading shapes',
+      'For every leading shape of length 1..3 over sizes {1,2,3} (thorough: sizes up to 5 for <=2 axes), with '
+      'different content per slice (different scales, one rank-deficient slice next to a concentrated one, one slice '
+      'with log-densities ~750 nats away / a silent frame): every single-distribution trainer and log_pdf and the '
+      'mixture trainers cACGMM (3 norms), cWMM, cBMM, GMM (3 covariance types), vMFMM return for each slice what '
+      'the same call returns on that slice alone (eigen-objects in canonical form, eigenvalues also in the log '
+      'domain); singleton-leading starts behave like their repetition.',
+      'Generic-position content per slice; cBMM restricted to <=4 slices (cost).',
+      'DESIGN.md §3 C06')
+for k in CHECKS:
+    NOT_YET.pop(k, None)
